@@ -445,3 +445,32 @@ def f5_deviation(o, game, hist, op):
     if game == "PLO" and a > 2 * owed + pot:
         return False
     return impl_min <= a and a - owed < max(hist.bb, hist.last_raise)
+
+
+def iter_ops(case):
+    """generator version of run_ops (non-probe ops only are expected): yields the record after every step"""
+    rec = {"steps": []}
+    try:
+        g = new_game(case)
+    except Exception as e:
+        rec["ctor"] = {"err": type(e).__name__, "msg": str(e)[:100]}
+        yield rec
+        return
+    rec["ctor"] = observe(g)
+    yield rec
+    for o in case["ops"]:
+        if o.get("probe"):
+            g2 = copy.deepcopy(g); g2._cv_fake = copy.copy(g._cv_fake)
+            r, e = apply_op(g2, o["o"])
+            st = {"r": r}
+            if r == "ok":
+                st["s"] = observe(g2)
+        else:
+            r, e = apply_op(g, o["o"])
+            st = {"r": r}
+            if r == "ok":
+                st["s"] = observe(g)
+        rec["steps"].append(st)
+        yield rec
+        if r == "internal" and not o.get("probe"):
+            return
